@@ -401,6 +401,7 @@ def c08(tier, seed):
               "is decided by the oracle's exhaustive AND/OR mate solver (engine's own unit first, then the y-moves reading, within a "
               "node budget; budget exhaustion is counted as unverified, never as a violation); non-trivial = distinct (position, go, table)")
     c.assumptions = SEARCH_ASSUME + ["mate claims longer than the solver budget allows are reported as unverified"]
+    c.require("roots:mate-in-one-with-clock>=98", 100)
     c.require("searches:after-aborted-search-of-same-root", 300)
     c.require("ep-twin-scenarios", 50)
     c.require("aborted-inside-iteration-2-then-searched-again", 200)
